@@ -20,6 +20,8 @@ TOKEN_TEXT = {"Plus": "+", "Minus": "-", "Multiply": "*", "Divide": "/", "Expone
 class NumStr:
     """Text of a numeric literal (a maximal digit/dot run) that denotes the non-negative number n."""
 
+    nonempty = True  # a digit/dot run has at least one character
+
     def __init__(self, n: Num, malformed=False):
         self.n = n
         self.malformed = malformed
